@@ -50,9 +50,8 @@ if os.path.isdir(rroot):
                "interpreter were made robust; the honest history of first runs (11, 10, 8, 14 and 7 of 24 alarmed at first) and what each\n"
                "wave changed in the machinery is in section 0. Coverage of that last run: the sixteen fast checks (C01-C08, C10, C13-C18, C20)\n"
                "on all 120; the typestate checks C09/C11/C12 (minutes each) on waves 1-2, 4 and 5 and on ref-A3-1..4 (100 refactorings) -\n"
-               "the other 20 of wave 3 were run against them only before the later engine changes. Two refactorings are still reported\n"
-               "although behaviour is unchanged: ref-D5-3 (C07 / R07.3) and ref-E5-3 (typestate checks end INCOMPLETE); both are known\n"
-               "limitations described in section 0 and section 9.\n")
+               "the other 20 of wave 3 were run against them only before the later engine changes. One refactoring is still reported\n"
+               "although behaviour is unchanged: ref-D5-3 (C07 / R07.3), a known limitation described in section 0 and section 9.\n")
     out.append("| refactoring | what it restructures | alarms now |")
     out.append("|---|---|---|")
     for rid in sorted(os.listdir(rroot)):
